@@ -167,6 +167,36 @@ def run(ck, replay=None):
     darsia = import_darsia()
     rng = random.Random(ck.seed)
     quick = ck.tier == "quick"
+    # two balance objects of one class fitted to different targets (first stage diagonal / linear / affine), fitted and applied
+    # along every interleaving of spec/TwoObjects.tla: each applies ITS balance
+    from lib import twoobj
+    thists = twoobj.histories(ck)
+    ntwin = 0
+    tspecs = []
+    sw = np.random.RandomState(5).rand(12, 3)
+    tkinds = [("AdaptiveBalance", "diagonal"), ("AdaptiveBalance", "affine"), ("AffineBalance", None)]
+    if not quick:
+        tkinds += [("AdaptiveBalance", "linear"), ("WhiteBalance", None), ("ColorBalance", None)]
+    for cls_name, mode in tkinds:
+        def make(o, cls_name=cls_name, mode=mode):
+            D = np.diag([1.5, 0.5, 2.0]) if o == "a" else np.diag([0.75, 1.25, 0.5])
+            dst = sw @ D + (0.05 if (o == "a" and (mode == "affine" or cls_name == "AffineBalance")) else 0.0)
+            b = getattr(darsia, cls_name)()
+            with warnings.catch_warnings():
+                warnings.simplefilter("ignore")
+                if mode is None:
+                    b.find_balance(sw.copy(), dst)
+                else:
+                    b.find_balance(sw.copy(), dst, mode=mode)
+            return b
+
+        def use(o, b):
+            return np.asarray(b.apply_balance(sw.copy()), dtype=float)
+
+        sel = thists if not quick else [h for h in thists if len(h) <= 4]
+        tspecs.append((sel, f"{cls_name}-{mode}", make, use, lambda x, y: x.shape == y.shape and np.allclose(x, y, rtol=1e-7, atol=1e-9), f"twin:{cls_name}:{mode}"))
+    ntwin = twoobj.run(ck, "C12", tspecs)
+    ck.cov["twin_object_histories"] = ntwin
     events = []
     sel = stage_lists if not quick else [s for s in stage_lists if len(s) <= 2] + rng.sample([s for s in stage_lists if len(s) == 3], 40) + [s for s in stage_lists if len(s) == 3 and s[1]["mode"] == "reset"]
     for i, st in enumerate(sel):
